@@ -1137,7 +1137,10 @@ Error CodeHolder::flatten() noexcept {
       prev->_virtual_size = offset - prev->_offset;
     }
 
-    prev = section;
+    // An empty section is never extended - it would become non-empty at an offset that was not aligned.
+    if (real_size) {
+      prev = section;
+    }
     offset += real_size;
   }
 
